@@ -433,7 +433,7 @@ Lemma stream_binop_ends_with_shortest : forall g s b l m d,
     /\ length r = Nat.min (length l) (length m)
     /\ forall i, i < Nat.min (length l) (length m) -> nth i r d = sel_apply2 g (nth i l d) (nth i m d).
 Proof.
-  intros g s b l m d Hs Hb Hl Hm. rewrite str_compose_binop by assumption. simpl. rewrite Hl, Hm. simpl.
+  intros g s b l m d Hs Hb Hl Hm. unfold pull in *. rewrite str_compose_binop by assumption. simpl. rewrite Hl, Hm. simpl.
   eexists. split; [reflexivity|]. split; [rewrite map_length, zip_length; reflexivity|].
   intros i Hi. set (f := fun p : obj * obj => sel_apply2 g (fst p) (snd p)).
   rewrite (nth_indep _ d (f (d, d))) by (rewrite map_length, zip_length; exact Hi).
@@ -444,12 +444,12 @@ Qed.
 Lemma stream_binop_value : forall g s b l,
   class_of s = CStr -> is_err b = false -> pull s = SFin l -> pull (to_stream b) = SConst b ->
   pull (apply_binop g s b) = SFin (map (fun a => sel_apply2 g a b) l).
-Proof. intros g s b l Hs Hb Hl Hm. rewrite str_compose_binop by assumption. simpl. rewrite Hl, Hm. reflexivity. Qed.
+Proof. intros g s b l Hs Hb Hl Hm. unfold pull in *. rewrite str_compose_binop by assumption. simpl. rewrite Hl, Hm. reflexivity. Qed.
 
 Lemma stream_binop_numbers : forall g la lb0,
   pull (apply_binop g (OStr la) (OStr lb0)) = SFin (map (fun p => ONum (snd g (fst p) (snd p))) (zip la lb0)).
 Proof.
-  intros g la lb0. simpl. rewrite zip_map, map_map. f_equal. apply map_ext. intros [x y]. apply sel_apply2_nums.
+  intros g la lb0. unfold pull. simpl. rewrite zip_map, map_map. f_equal. apply map_ext. intros [x y]. apply sel_apply2_nums.
 Qed.
 
 (* patterns: stream(p op q) = stream(p) op stream(q) *)
@@ -495,8 +495,8 @@ Lemma reflected_forms : forall env fx g n,
 Proof.
   intros env fx g n. split; [|split; [|split; [|split]]].
   - intros b Hb. apply fn_rbinop_call. exact Hb.
-  - intros s l Hs Hl. rewrite str_rcompose_binop by exact Hs. simpl. rewrite Hl. reflexivity.
-  - intros p l Hp Hl. rewrite pat_rcompose_binop by exact Hp. simpl. rewrite Hl. reflexivity.
+  - intros s l Hs Hl. unfold pull in *. rewrite str_rcompose_binop by exact Hs. simpl. rewrite Hl. reflexivity.
+  - intros p l Hp Hl. unfold pull in *. rewrite pat_rcompose_binop by exact Hp. simpl. rewrite Hl. reflexivity.
   - apply chan_scalar_left.
   - intros r y. apply operand_binop_hom. exact true.
 Qed.
@@ -527,4 +527,68 @@ Proof.
     change (ONum NErr) with (ONum (@id num NErr)). rewrite !map_nth. unfold id.
     rewrite list_binop_scalar_leaf by reflexivity.
     unfold sel. destruct g as [[| |] f]; reflexivity.
+Qed.
+
+(* ====================================================================== *)
+(* operator patterns EMBEDDED in enclosing patterns (Pseq / Pn)             *)
+
+(* Punop.__embed__, Pattern.__embed__ (Pbinop) and Pnarop.__embed__ yield exactly what the stream
+   made by __stream__ yields: every operand stream is advanced once per element on both paths *)
+Lemma embed_eq_stream : forall (g1 : op1) (g2 : op2) (g3 : op3) a b args,
+  xpull MEmbed (OUnPat g1 a) = xpull MStream (OUnPat g1 a)
+  /\ xpull MEmbed (OBinPat g2 a b) = xpull MStream (OBinPat g2 a b)
+  /\ xpull MEmbed (ONarPat g3 a args) = xpull MStream (ONarPat g3 a args).
+Proof. intros. repeat split; reflexivity. Qed.
+
+(* stream(o) pulled = the MStream denotation, for every object (to_stream is stream.stream) *)
+Fixpoint xpull_to_stream (o : obj) : xpull MPull (to_stream o) = xpull MStream o.
+Proof.
+  destruct o; try reflexivity.
+  - simpl. rewrite (xpull_to_stream o0). reflexivity.
+  - simpl. rewrite (xpull_to_stream o2), (xpull_to_stream o3). reflexivity.
+  - simpl. rewrite (xpull_to_stream o0). do 2 f_equal.
+    rewrite map_map. induction args as [|x args IH]; [reflexivity|].
+    simpl. rewrite (xpull_to_stream x), IH. reflexivity.
+Qed.
+
+Lemma sconcat_single : forall {A} (s : strm A), sconcat [s] = s.
+Proof. intros A [l|a]; simpl; [rewrite app_nil_r|]; reflexivity. Qed.
+Lemma srepeat_one : forall {A} (s : strm A), srepeat 1 s = s.
+Proof. intros A [l|a]; simpl; [rewrite app_nil_r|]; reflexivity. Qed.
+
+(* an enclosing Pseq embeds its items one after the other; a single embedded operator pattern
+   therefore yields, element by element, the selector applied to the separately pulled operands *)
+Lemma pseq_embeds_items : forall items m, m <> MPull ->
+  xpull m (OPseq items 1) = sconcat (map (xpull MEmbed) items).
+Proof. intros items [| |] Hm; try congruence; simpl; apply srepeat_one. Qed.
+
+Lemma embedded_unop : forall g a m, m <> MPull ->
+  xpull m (OPseq [OUnPat g a] 1) = smap (sel_apply1 g) (xpull MStream a).
+Proof. intros g a m Hm. rewrite pseq_embeds_items by exact Hm. simpl map. apply sconcat_single. Qed.
+Lemma embedded_binop : forall g a b m, m <> MPull ->
+  xpull m (OPseq [OBinPat g a b] 1) = szip (sel_apply2 g) (xpull MStream a) (xpull MStream b).
+Proof. intros g a b m Hm. rewrite pseq_embeds_items by exact Hm. simpl map. apply sconcat_single. Qed.
+Lemma embedded_narop : forall g a args m, m <> MPull ->
+  xpull m (OPseq [ONarPat g a args] 1)
+  = szip (sel_apply3 g) (xpull MStream a) (sseq (map (xpull MStream) args)).
+Proof. intros g a args m Hm. rewrite pseq_embeds_items by exact Hm. simpl map. apply sconcat_single. Qed.
+Lemma embedded_in_pn : forall p m, m <> MPull -> xpull m (OPn p 1) = xpull MEmbed p.
+Proof. intros p [| |] Hm; try congruence; simpl; apply srepeat_one. Qed.
+
+Lemma zip_map_l : forall {A B A'} (f : A -> A') (a : list A) (b : list B),
+  zip (map f a) b = map (fun p => (f (fst p), snd p)) (zip a b).
+Proof. intros A B A' f a; induction a as [|x a IH]; intros [|y b]; simpl; try reflexivity. rewrite IH; reflexivity. Qed.
+Lemma zip_map_r : forall {A B B'} (h : B -> B') (a : list A) (b : list B),
+  zip a (map h b) = map (fun p => (fst p, h (snd p))) (zip a b).
+Proof. intros A B B' h a; induction a as [|x a IH]; intros [|y b]; simpl; try reflexivity. rewrite IH; reflexivity. Qed.
+
+(* the closed form for numbers: p.clip(lo, hi) embedded in a Pseq, p a pattern, lo a STREAM (Routine)
+   yielding varying values, hi a pattern: element i = op p[i] lo[i] hi[i], ending with the shortest *)
+Lemma embedded_narop_numbers : forall g la lo hi,
+  xpull MStream (OPseq [ONarPat g (OPat la) [OStr lo; OPat hi]] 1)
+  = SFin (map (fun t => ONum (snd g (fst t) [fst (snd t); snd (snd t)])) (zip la (zip lo hi))).
+Proof.
+  intros g la lo hi. rewrite embedded_narop by discriminate. simpl.
+  repeat first [rewrite map_map | rewrite zip_map | rewrite zip_map_r | rewrite zip_map_l].
+  f_equal. apply map_ext. intros [x [y z]]. simpl. exact (sel_apply3_nums g x [y; z]).
 Qed.
